@@ -12,7 +12,7 @@ verus! {
 //@keep converged: bool
 //@keep k: usize
 //@flag passed
-//@on then error.to_reduced().abs() < f64::max => passed = true;
+//@on then error.to_reduced().abs() < f64::max($..r) => passed = true;
 //@on assign rho => passed = false;
     ensures
         // from the statement: "its pressure ... equals the requested value to solver tolerance":
